@@ -19,7 +19,7 @@ REQUIRED = {"specific_vs_generic": {"quick": 150, "thorough": 600}, "general_vs_
             "rescaling_invariance": {"quick": 80, "thorough": 400}, "conversion_formulas": {"quick": 100, "thorough": 400}}
 ASSUMPTIONS = ["generic symbol sum_j a_j sum_d (i k_d)^j: a zeroth-order coefficient counts D times (the documented symbol; FisherKPP(r) == linear_coefficients (r/D, 0, nu))",
                "anisotropic / mixed-derivative options of the specific steppers have no generic counterpart and are not paired"]
-TIMEOUT = {"quick": 900, "thorough": 3000}
+TIMEOUT = {"quick": 2400, "thorough": 7200}
 TOL = 1e-10
 
 PAIRS = ["advection", "diffusion", "advection_diffusion", "dispersion", "hyper_diffusion", "burgers", "kdv", "ksc", "ks", "ns_vorticity", "fisher", "allen_cahn",
